@@ -97,4 +97,5 @@ def main():
                       "bound": "pre-filter: every pattern shape of length <= %d over {regex 100, regex 101, non-regex} x every token sequence of length <= %d over three ids; _match_regex: every (pattern, offset) of %d pool texts" % (n, n, len(pool))}))
 
 
-main()
+from replay._guard import run_guarded  # noqa: E402
+run_guarded(main, 'the real pre-filter / _match_regex raises')
